@@ -153,6 +153,55 @@ def sentinel_grammar():
     return dict(name=None, extends=None, stmts=stmts)
 
 
+IGNORED_PY = '''log = []
+def note(tag):
+    def f(v):
+        log.append((tag, v))
+        return v
+    return f
+'''
+
+
+def run_ignored_rules(rec):
+    """Named ignore rules are rules: their bodies (inline Python included) run at most once per
+    position, however many tokens end in front of the same ignorable text and however the skipper
+    walks a run.  Every ignorable character of an input is distinct, so the matched text names the
+    position.  Also the look-behind idiom of the README (Backtrack(n) >> ignored rule)."""
+    descs = {
+        'unnamed': '```\n%s```\nstart = (Pair | Word)*\nPair = [Word, "=", Word]\nWord = /[a-z]+/\n'
+                   'ignore Dig = /[0-9]/ |> `note("Dig")`\nignore Sym = "#" >> /[A-Z]/ |> `note("Sym")`\n' % IGNORED_PY,
+        'single': '```\n%s```\nstart = (Pair | Word)*\nPair = [Word, "=", Word]\nWord = /[a-z]+/\n'
+                  'ignore Dig = /[0-9]/ |> `note("Dig")`\n' % IGNORED_PY,
+        'lookbehind': '```\n%s```\nstart = Stmt*\nStmt = [Word, Doc?]\nDoc = Backtrack(1) >> Dig\nWord = /[a-z]+/\n'
+                      'ignore Dig = /[0-9]/ |> `note("Dig")`\n' % IGNORED_PY,
+    }
+    descs['named'] = 'grammar vt_c07_ign\n' + descs['unnamed']
+    inputs = ['a1b', 'a12b', 'a 1', 'ab=cd', 'a1=2b', 'a12=34b5', 'a1=2b3c4=5d6', '0a', '01a23', 'a#Ab', 'a1#A2#B3b', 'a=1#Ab2', 'a1', 'a12',
+              'a123456', 'a1b2c3d4e5', 'a=b=c', 'a1=b2=c3', '#A#Ba', 'x9=8y7z']
+    import sys
+    for tag, d in sorted(descs.items()):
+        r = observe.compile_grammar(d)
+        if r[0] != 'ok':
+            rec.violation('ignored-rule:grammar-error', 'Grammar()', dict(kind='ignored', tag=tag, descs=[d]), 'module', r)
+            continue
+        g = r[1]
+        for t in inputs:
+            del g.log[:]
+            o = observe.observe(g, t)
+            rec.case()
+            rec.nontrivial(('ignored', tag, t))
+            seen = {}
+            for e in g.log:
+                seen[e] = seen.get(e, 0) + 1
+            rec.count('ignored_rule_side_effects', len(g.log))
+            twice = sorted(k for k, n in seen.items() if n > 1)
+            if twice:
+                rec.violation('ignored-rule-evaluated-twice', 'side effects of inline Python in an ignored rule, keyed by the matched (unique) character',
+                              dict(kind='ignored', tag=tag, descs=[d], text_repr=repr(t)), 'each (rule, character) at most once',
+                              [(k, seen[k]) for k in twice][:6])
+        sys.modules.pop('vt_c07_ign', None)
+
+
 def run_sentinels(rec):
     G = sentinel_grammar()
     if not gen.well_formed(G):
@@ -379,6 +428,9 @@ def run_shard(rec):
         run_reentrant(rec)
     idx += 1
     if rec.mine(idx):
+        run_ignored_rules(rec)
+    idx += 1
+    if rec.mine(idx):
         run_metaparser(rec, quick)
     idx += 1
     if rec.mine(idx):
@@ -392,6 +444,8 @@ def replay(rec, rep):
         return run_sentinels(rec)
     if case.get('kind') == 'reentrant':
         return run_reentrant(rec)
+    if case.get('kind') == 'ignored':
+        return run_ignored_rules(rec)
     if case.get('kind') in ('meta-probe',):
         return run_metaparser(rec, True)
     if case.get('kind') == 'excel-probe':
